@@ -8,7 +8,10 @@
 (*   travel     sum of all forward cursor movement of every cursor created *)
 (*   back       number of backward cursor moves                            *)
 (*   peeks      look-ahead operations;  peek_bytes  bytes they examined    *)
-(* The number of cursors is not constrained.                               *)
+(*   us         wall time of the call in microseconds (best of three)      *)
+(* The number of cursors is not constrained.  The time bound is a sensor   *)
+(* for work the cursor counters cannot see (re-scanning a handed-out       *)
+(* slice); its margin is about three orders of magnitude.                  *)
 (***************************************************************************)
 EXTENDS Integers, Sequences, TLC, Json, IOUtils
 
@@ -20,6 +23,7 @@ Linear(r) ==
   /\ r.travel <= 2 * r.len + 64
   /\ r.peeks <= 2 * r.len + 64
   /\ r.peek_bytes <= 33 * r.len + 64
+  /\ r.us <= 2 * r.len + 20000      \* time: 2 microseconds per byte + 20 ms (about 1000x the normal cost)
 TInit == l = 1
 TWork == l <= Len(Rec) /\ Rec[l].ev = "work" /\ Linear(Rec[l]) /\ l' = l + 1
 TSpec == TInit /\ [][TWork]_l
